@@ -152,7 +152,7 @@ pub fn run(cfg: &Config) -> i32 {
     require_binaries(cfg);
     let tmp = scratch_dir(cfg, "c05");
     let budget = Duration::from_secs_f64(cfg.pick(40.0, 420.0) * cfg.scale);
-    let stats = parallel(cfg, "main", cfg.scaled(cfg.pick(30_000, 5_000_000)), budget, |idx, r, st| case(cfg, &tmp, idx, r, st));
+    let stats = parallel(cfg, "main", cfg.scaled(cfg.pick(60_000, 5_000_000)), budget, |idx, r, st| case(cfg, &tmp, idx, r, st));
     let _ = std::fs::remove_dir_all(&tmp);
     finish(
         cfg,
